@@ -236,6 +236,11 @@ func c05Alphabet(s *sessSys) []sessReq {
 					add("mod-ufar", sessReq{sReq: sReq{Kind: kMod, Conn: c, UpdateFAR: []sFAR{{ID: 2, Action: ActionForward, HasFwd: true, HasDst: true, Dst: ie.DstInterfaceAccess, OHCIP: f.OHCIP, OHCTEID: 0x7001}}}, Sess: x.Idx})
 				}
 				add("mod-rejected-remove-unknown", sessReq{sReq: sReq{Kind: kMod, Conn: c, RemovePDR: []uint16{99}}, Sess: x.Idx})
+				if p1 := x.pdr(1); p1 != nil && !p4 && s.in.cfg.UEIPAlloc && x.pdr(8) == nil {
+					// a refused modification whose Create PDR asks the UP to choose a tunnel endpoint: whatever was taken for it
+					// (nothing on the pinned tree, which allocates in establishments only) must be given back
+					add("mod-create-choose-pdr-refused", sessReq{sReq: sReq{Kind: kMod, Conn: c, CreatePDR: []sPDR{{ID: 8, Prec: 90, Src: ie.SrcInterfaceAccess, FTEID: &sFTEID{Choose: true}, UEIP: p1.UEIP, Decap: true, FAR: 1, QERs: p1.QERs}}, RemovePDR: []uint16{99}}, Sess: x.Idx})
+				}
 				if p2 := x.pdr(2); p2 != nil && p2.AllocUE && p2.UE != 0 {
 					// the control plane repeats the address the UP allocated, explicitly, in an Update PDR
 					up := p2.sPDR
